@@ -175,20 +175,51 @@ def _find_while(f):
     return ws
 
 
+def _always_exits(body):
+    return bool(body) and isinstance(body[-1], (ast.Continue, ast.Break, ast.Return, ast.Raise))
+
+
+def _atomise(test, pol):
+    """split a guard into atomic (test, polarity) facts: not X | A and B (taken) | A or B (not taken)"""
+    if isinstance(test, ast.UnaryOp) and isinstance(test.op, ast.Not):
+        return _atomise(test.operand, not pol)
+    if isinstance(test, ast.BoolOp) and ((isinstance(test.op, ast.And) and pol) or (isinstance(test.op, ast.Or) and not pol)):
+        out = []
+        for v in test.values:
+            out.extend(_atomise(v, pol))
+        return out
+    return [(test, pol)]
+
+
 def _guard_chain(pm, node, stop):
-    """[(test_node, polarity)] of the if-statements enclosing node, innermost last, up to ``stop``."""
+    """[(test_node, polarity)] of the conditions under which ``node`` runs inside ``stop``: the enclosing if-statements and the guard
+    clauses before it (`if T: ...; continue/break/return` with no else leaves `not T` for the rest of the block), split into
+    atomic facts, outermost first.  Both styles of writing the same traversal give the same chain."""
     chain = []
     cur = node
     while cur is not stop and cur in pm:
         par = pm[cur]
+        here = []
+        for fld in ("body", "orelse"):
+            blk = getattr(par, fld, None)
+            if isinstance(blk, list) and cur in blk:
+                for prev in blk[:blk.index(cur)]:
+                    if isinstance(prev, ast.If) and not prev.orelse and _always_exits(prev.body):
+                        here.extend(_atomise(prev.test, False))
+                    elif isinstance(prev, ast.If) and prev.orelse and _always_exits(prev.orelse) and not _always_exits(prev.body):
+                        here.extend(_atomise(prev.test, True))
         if isinstance(par, ast.If):
             if cur in par.body:
-                chain.append((par.test, True))
+                chain.append(_atomise(par.test, True) + here)
             elif cur in par.orelse:
-                chain.append((par.test, False))
+                chain.append(_atomise(par.test, False) + here)
+            else:
+                chain.append(here)
+        else:
+            chain.append(here)
         cur = par
     chain.reverse()
-    return chain
+    return [x for grp in chain for x in grp]
 
 
 def _stack_pushes(loop, stackname):
@@ -312,7 +343,13 @@ def r_traverse(idx, rep):
         seen_type = False
         okay = True
         for test, pol in chain:
-            for cj in conjuncts(test):
+            for cj in (conjuncts(test) if pol else [test]):
+                if _is_sentinel_test(cj, C, [nodevar]):
+                    if _sentinel_polarity(cj, C) == pol:
+                        rep.bad(rule, fk + "|%s guard %s" % (what, u(cj)), "%s:%d" % (f.module.relpath, st.lineno),
+                                "%s happens only for the INDEX_NONE sentinel" % what)
+                        okay = False
+                    continue
                 kind = _classify_test(cj, C, p_nodes, nodevar, aliases)
                 if kind[0] == "overlap":
                     if not pol or not overlap_ok(kind[1]):
@@ -380,8 +417,11 @@ def r_traverse(idx, rep):
             chain = _guard_chain(pm, st, loop)
             flags = [u(t) for t, pol in chain if pol and isinstance(t, ast.Name) and t.id == p_flag]
             sentinel = any(_is_sentinel_test(t, C, [nodevar]) for t, pol in chain)
-            if isinstance(st, ast.Continue) and sentinel:
-                rep.ok(rule, fk + "|continue-on-sentinel", "%s:%d" % (f.module.relpath, st.lineno))
+            if isinstance(st, ast.Continue):
+                # a `continue` only shapes the conditions under which the push / append run; those conditions are judged above
+                # (guard clauses are part of the chain), so the statement itself decides nothing
+                if sentinel:
+                    rep.ok(rule, fk + "|continue-on-sentinel", "%s:%d" % (f.module.relpath, st.lineno))
                 continue
             rep.check(bool(flags) and isinstance(st, ast.Break), rule, fk + "|early-exit %s" % type(st).__name__,
                       "%s:%d" % (f.module.relpath, st.lineno),
@@ -450,7 +490,12 @@ def r_traverse(idx, rep):
         good = True
         nprune = 0
         for test, pol in chain:
-            for cj in conjuncts(test):
+            for cj in (conjuncts(test) if pol else [test]):
+                if _is_sentinel_test(cj, C, [nodevar]):
+                    if _sentinel_polarity(cj, C) == pol:
+                        good = False
+                        rep.bad(rule, gk + "|push guard %s" % u(cj), "%s:%d" % (g.module.relpath, st.lineno), "children pushed only for the INDEX_NONE sentinel")
+                    continue
                 kind = _classify_test(cj, C, n2, nodevar, {})
                 if kind[0] == "type":
                     leaf = (kind[1] == C["TYPE_LEAF"]) == (kind[2] == pol)
